@@ -531,6 +531,14 @@ func (c *checker) checkLockExclusion() {
 			applied[k] = at
 		}
 	}
+	// a resolver that commits the transaction may commit any of its keys (by key list, by region, by batch): the
+	// earliest such request counts for every key of the transaction
+	resolved := map[uint64]uint64{}
+	noteAll := func(start, at uint64) {
+		if old, ok := resolved[start]; !ok || at < old {
+			resolved[start] = at
+		}
+	}
 	for _, r := range c.trace {
 		if !r.Executed || r.Resp == nil || r.Resp.Resp == nil {
 			continue
@@ -539,6 +547,15 @@ func (c *checker) checkLockExclusion() {
 			continue
 		}
 		switch q := r.Req.Req.(type) {
+		case *kvrpcpb.ResolveLockRequest:
+			if q.CommitVersion > 0 {
+				noteAll(q.StartVersion, r.ExecSeq)
+			}
+			for _, ti := range q.TxnInfos {
+				if ti.Status > 0 {
+					noteAll(ti.Txn, r.ExecSeq)
+				}
+			}
 		case *kvrpcpb.CommitRequest:
 			if rp, ok := r.Resp.Resp.(*kvrpcpb.CommitResponse); ok && rp.GetError() == nil {
 				for _, k := range q.Keys {
@@ -567,6 +584,9 @@ func (c *checker) checkLockExclusion() {
 					continue
 				}
 				at, ok := applied[fmt.Sprintf("%d/%s", w.StartTS, k)]
+				if rs, ok2 := resolved[w.StartTS]; ok2 && (!ok || rs < at) {
+					at, ok = rs, true
+				}
 				if ok && at > from && at < a.EndInv {
 					c.fail("C01", "lock-exclusion", fmt.Sprintf("txn%d.%s", a.Prog.ID, k), "txn %d (start %d) held a pessimistic lock on %q (LockKeys with for_update_ts %d returned at event %d, the transaction ended from event %d on), but the transaction with start %d committed %q at %d inside that interval (its commit was applied at event %d); no message was lost and no client died in this run", a.Prog.ID, a.StartTS, k, f, from, a.EndInv, w.StartTS, k, w.CommitTS, at)
 				}
